@@ -18,7 +18,7 @@ import zlib
 from . import common
 
 PROPERTY = 'C17'
-LEAN_TARGETS = ['CpProofs.C17', 'drv_c17']
+LEAN_TARGETS = ['CpProofs.C17', 'CpProofs.C17Order', 'drv_c17']
 DRIVER = 'drv_c17'
 THEOREMS = [
     'CpProofs.C17.tables_pinned',
@@ -50,6 +50,21 @@ THEOREMS = [
     'CpProofs.C17.C17_charset_sound_full_false',
     'CpProofs.C17.C17_charset_stream_full_false',
     'CpProofs.C17.C17_charset_star_ignores_explicit',
+    # q-values float() accepts; order-only; sorted is the stable sort (C17Order.lean)
+    'CpProofs.C17.key_lt_iff',
+    'CpProofs.C17.key_eq_iff',
+    'CpProofs.C17.isZero_iff_key',
+    'CpProofs.C17.isPos_iff_key',
+    'CpProofs.C17.key_lt_infKey',
+    'CpProofs.C17.acceptLt_order_only',
+    'CpProofs.C17.sortAsc_congr',
+    'CpProofs.C17.acceptSort_order_only',
+    'CpProofs.C17.acceptLt_strictWeak',
+    'CpProofs.C17.plainLt_strictWeak',
+    'CpProofs.C17.sortAsc_sorted_full',
+    'CpProofs.C17.sortAsc_stable',
+    'CpProofs.C17.acceptElements_sorted_full',
+    'CpProofs.C17.splitHeader_noQuote',
 ]
 LEVEL = 'proof'
 TECHNIQUE = ('Lean 4 proof over a hand model of encoding.compress / encoding.gzip / ResponseEncoder / header_elements '
@@ -755,7 +770,53 @@ QS_ODD = [';q=.5', ';q=0.', ';q=1.', ';q=2', ';q=10', ';q=-1', ';q=-0', ';q=+0.5
           ';q=0.5 ', ';\tq=0.5', ';q=\t0', '; q= 0.25', ';x="a,b";q=0', ';q=0;x="a;b"', ';q==0', ';qq=0', ';q']
 
 
-def gen_accept(rng, names, junk_p=0.08):
+def gen_q_float(rng):
+    """a q text from the grammar float() accepts (and near misses): sign, digits with PEP 515 underscores, fraction,
+    exponent, inf / nan spellings, magnitudes around the overflow / underflow thresholds, long digit strings"""
+    r = rng.random()
+    if r < 0.12:
+        return rng.choice(['', '+', '-']) + rng.choice(['inf', 'Inf', 'INF', 'infinity', 'Infinity', 'nan', 'NaN', 'NAN',
+                                                       'infinit', 'in', 'na', 'nane', 'infinityy', 'i_nf'])
+
+    def digits(lo, hi):
+        n = rng.randint(lo, hi)
+        d = ''.join(rng.choice('0000123456789') for _ in range(n))
+        if n >= 2 and rng.random() < 0.2:
+            i = rng.randint(1, n - 1)
+            d = d[:i] + '_' + d[i:]
+        return d
+    ip = digits(0, 3) if rng.random() < 0.85 else digits(10, 22)
+    fp = None
+    if rng.random() < 0.7:
+        fp = digits(0, 4) if rng.random() < 0.8 else digits(12, 20)
+    t = ip + ('.' + fp if fp is not None else '')
+    if rng.random() < 0.45:
+        e = rng.choice([0, 0, 1, 2, 3, -1, -2, -3, -4, 15, -15, 16, 300, 305, 306, 307, 308, 309, 310, 324, -300, -305,
+                        -306, -307, -308, -309, -310, -320, -323, -324, -325, -326, -330, 400, -400, 5000, -5000,
+                        rng.randint(-340, 340), 10 ** 30])
+        t += rng.choice('eE') + rng.choice(['', '', '+']) * (e >= 0) + str(e)
+        if rng.random() < 0.05:
+            t = t.replace('e', 'e_', 1)
+    t = rng.choice(['', '', '', '+', '-']) + t
+    m = rng.random()
+    if m < 0.04:
+        t = t + '_'
+    elif m < 0.08:
+        t = '_' + t
+    elif m < 0.12:
+        t = t.replace('.', '_.', 1)
+    elif m < 0.16:
+        t = t.replace('.', '._', 1)
+    elif m < 0.20:
+        t = t + rng.choice(['e', 'e+', 'e-', 'f', 'd', 'L', ' 1', 'x0'])
+    elif m < 0.23:
+        t = t.replace('.', ',', 1)
+    elif m < 0.26:
+        t = '"%s%s%s"' % (rng.choice(['', ' ', '\t']), t, rng.choice(['', ' ']))
+    return t
+
+
+def gen_accept(rng, names, junk_p=0.08, float_p=0.04):
     r = rng.random()
     if r < 0.04:
         return None
@@ -768,7 +829,9 @@ def gen_accept(rng, names, junk_p=0.08):
     els = []
     for _ in range(n):
         name = rng.choice(names)
-        if rng.random() < 0.12:
+        if rng.random() < float_p:
+            q = rng.choice([';q=', ';q=', '; q=', ';Q=']) + gen_q_float(rng)
+        elif rng.random() < 0.12:
             q = rng.choice(QS_ODD)
         else:
             q = rng.choice(QS_OK)
@@ -933,7 +996,7 @@ def gen_cs_case(rng):
 def gen_els_case(rng):
     r = rng.random()
     if r < 0.5:
-        v = gen_accept(rng, CODINGS + CHARSETS, junk_p=0.15)
+        v = gen_accept(rng, CODINGS + CHARSETS, junk_p=0.15, float_p=0.35)
     elif r < 0.8:
         alphabet = 'abq=;,." \\*-01\xe9Q'
         v = ''.join(rng.choice(alphabet) for _ in range(rng.randint(0, 30)))
@@ -957,42 +1020,111 @@ def run_els(case):
         return 'err%d' % e.status
     out = []
     for e in els:
+        qx = None
         if case['kind'] == 'A':
             try:
                 q = e.qvalue
             except cherrypy.HTTPError:
                 q = 'bad'
+            try:
+                qx = q_expect(q_raw(e))
+            except Exception as x:
+                qx = 'unreadable:%s' % type(x).__name__
         else:
             q = None
-        out.append((e.value, q, str(e)))
+        out.append((e.value, q, str(e), qx))
     return out
+
+
+def q_expect(raw):
+    """Independent classification of one q text (the value `float()` is given) with the decimal module:
+    'bad' | 'nan' | 'inf' | '-inf' | 'exotic' (finite, but decimal -> double is not injective there: more than 15
+    significant digits or a magnitude next to the overflow / underflow thresholds) | Fraction (the exact value)."""
+    import decimal
+    import math
+    from fractions import Fraction
+    try:
+        f = float(raw)
+    except ValueError:
+        return 'bad'
+    if math.isnan(f):
+        return 'nan'
+    t = raw.strip().replace('_', '')
+    if t.lstrip('+-').lower() in ('inf', 'infinity'):
+        return 'inf' if f > 0 else '-inf'
+    m = re.match(r'^[+-]?(\d*)\.?(\d*)(?:[eE]([+-]?\d+))?$', t)
+    if not m:
+        return 'unreadable'
+    ip, fp, ex = m.group(1), m.group(2), int(m.group(3) or 0)
+    digits = (ip + fp).lstrip('0')
+    if not digits:
+        return Fraction(0)
+    sig = digits.rstrip('0')
+    adj = ex - len(fp) + len(digits) - 1            # exponent of the leading digit
+    if adj >= 309:
+        return 'inf' if f > 0 else '-inf'
+    if adj <= -325:
+        return Fraction(0)
+    if len(sig) > 15 or adj > 307 or adj < -307:
+        return 'exotic'
+    return Fraction(decimal.Decimal(t))
+
+
+def model_q(mq):
+    """the model's q field -> same domain as q_expect"""
+    from fractions import Fraction
+    if mq in ('bad', 'nan', 'inf', '-inf', 'exotic'):
+        return mq
+    num, sc = mq.split('e-')
+    return Fraction(int(num), 10 ** int(sc))
+
+
+def q_raw(e):
+    """the text `qvalue` hands to float() (read off the real element object)"""
+    v = e.params.get('q', '1')
+    return v.value if hasattr(v, 'value') and not isinstance(v, str) else v
 
 
 def cmp_els(case, impl, line):
     """None when equal, else a description"""
-    if line == 'exotic':
-        return None
+    import math
     if line == 'err400':
         return None if impl == 'err400' else 'model err400'
+    if line == 'exotic':
+        # the model refuses to order the list: legitimate only if some q is nan / outside the exact range
+        if isinstance(impl, str):
+            return 'model exotic, impl %s' % impl
+        if len(impl) >= 2 and any(x[3] in ('nan', 'exotic') for x in impl):
+            return None
+        return 'model says exotic for a list it should order'
     if isinstance(impl, str):
         return 'impl %s' % impl
     f = line.split(' ')[1:]
     f = [x for x in f if x]
     if len(f) != len(impl):
         return 'lengths %d vs %d' % (len(impl), len(f))
-    for (v, q, s), m in zip(impl, f):
+    for (v, q, s, qx), m in zip(impl, f):
         mv, mq, ms = m.split('/')
         if unT(mv) != v or unT(ms) != s:
             return 'value/str differ'
-        if mq == 'exotic':
-            continue
         if mq == '-':
             continue
-        if mq == 'bad':
+        mqv = model_q(mq)
+        if mqv != qx:
+            return 'q class/value differs: model %s, float() of the same text %r' % (mq, qx)
+        # ... and against the float the property object really returned
+        if mqv == 'bad':
             if q != 'bad':
                 return 'model q bad, impl %r' % (q,)
-            continue
-        if q == 'bad' or float(mq) != q:
+        elif q == 'bad':
+            return 'impl q bad, model %s' % mq
+        elif mqv == 'nan':
+            if not math.isnan(q):
+                return 'model nan, impl %r' % (q,)
+        elif mqv in ('inf', '-inf'):
+            if q != float(mqv):
+                return 'model %s, impl %r' % (mqv, q)
+        elif mqv != 'exotic' and float(mqv) != q:
             return 'q differs %r vs %s' % (q, mq)
     return None
 
